@@ -182,6 +182,14 @@ func (m *Model) ruleFEEDWRITERS(r *Results) {
 									if vals, dyn := varargValues(sl); !dyn && len(vals) == 1 {
 										good = true
 									}
+									// ... and the entry appended to is the one read in the same critical
+									// section: an entry read under an earlier acquisition is stale, and writing
+									// it back drops every feed registered in between
+									if between := m.lockOpBetween(lk, mu); between != nil {
+										r.bad(rule, m.declName(fn)+" / registry entry read and extended in one critical section", m.instrPos(mu), "the registry entry that is extended was read at %s, and the lock is released or taken (%s) before the extended entry is written back: a feed registered in between is dropped from the registry and never receives another event", m.instrPos(lk), m.instrPos(between))
+									} else {
+										r.ok(rule, m.declName(fn)+" / registry entry read and extended in one critical section", m.instrPos(mu), "no lock operation between the read of the entry and its update")
+									}
 								}
 							}
 						}
@@ -282,6 +290,137 @@ func (m *Model) ruleLOOPVAR(r *Results) {
 		}
 	}
 	r.ok(rule, "inventory", "-", "%d goroutine(s) started inside loops", n)
+	// The address of the one loop variable is not kept past the iteration: put into a map, a
+	// field of something older than the iteration or a channel, every entry would alias the
+	// same variable and hold the last value.
+	na := 0
+	for _, fn := range m.Funcs {
+		for _, b := range fn.Blocks {
+			for _, ins := range b.Instrs {
+				al, ok := ins.(*ssa.Alloc)
+				if !ok || al.Referrers() == nil {
+					continue
+				}
+				var loopStore *ssa.Store
+				for _, ref := range *al.Referrers() {
+					if st, ok := ref.(*ssa.Store); ok && st.Addr == al && inCycle(st.Block()) && !sameCycle(al.Block(), st.Block()) {
+						loopStore = st
+					}
+				}
+				if loopStore == nil {
+					continue
+				}
+				sink := loopVarAddrKept(al, loopStore.Block())
+				if sink == nil {
+					continue
+				}
+				na++
+				r.bad(rule, m.declName(fn)+" / address of a loop variable kept", m.instrPos(sink), "%s", fmt.Sprintf("the address of %s, which is one variable for the whole loop (go.mod declares go %s), is stored where it outlives the iteration: every entry ends up pointing at the last value", al.Comment, m.goVersionString()))
+			}
+		}
+	}
+	if na == 0 {
+		r.ok(rule, "address of a loop variable kept", "-", "no loop-carried variable has its address stored into a map, an older object or a channel inside its loop")
+	}
+}
+
+func sameCycle(a, b *ssa.BasicBlock) bool {
+	if a == b {
+		return inCycle(a)
+	}
+	return reachableFrom(a, nil)[b.Index] && reachableFrom(b, nil)[a.Index]
+}
+
+// loopVarAddrKept follows the address of al through interface conversions and the fields of
+// per-iteration temporaries, and returns the instruction (inside the loop of `in`) that
+// stores it into a map, into memory that is older than the iteration, or sends it.
+func loopVarAddrKept(al *ssa.Alloc, in *ssa.BasicBlock) ssa.Instruction {
+	tainted := map[ssa.Value]bool{al: true}
+	cells := map[*ssa.Alloc]bool{}
+	rootAlloc := func(v ssa.Value) *ssa.Alloc {
+		for i := 0; i < 8; i++ {
+			switch x := v.(type) {
+			case *ssa.FieldAddr:
+				v = x.X
+			case *ssa.IndexAddr:
+				v = x.X
+			case *ssa.Alloc:
+				return x
+			default:
+				return nil
+			}
+		}
+		return nil
+	}
+	fn := al.Parent()
+	for changed, round := true, 0; changed && round < 6; round++ {
+		changed = false
+		for _, b := range fn.Blocks {
+			if !sameCycle(b, in) {
+				continue
+			}
+			for _, ins := range b.Instrs {
+				switch x := ins.(type) {
+				case *ssa.MakeInterface:
+					if tainted[x.X] && !tainted[x] {
+						tainted[x], changed = true, true
+					}
+				case *ssa.ChangeInterface:
+					if tainted[x.X] && !tainted[x] {
+						tainted[x], changed = true, true
+					}
+				case *ssa.ChangeType:
+					if tainted[x.X] && !tainted[x] {
+						tainted[x], changed = true, true
+					}
+				case *ssa.Phi:
+					for _, e := range x.Edges {
+						if tainted[e] && !tainted[x] {
+							tainted[x], changed = true, true
+						}
+					}
+				case *ssa.UnOp:
+					if x.Op == token.MUL {
+						if ra := rootAlloc(x.X); ra != nil && cells[ra] && !tainted[x] {
+							if _, isStruct := x.Type().Underlying().(*types.Struct); isStruct {
+								tainted[x], changed = true, true
+							}
+						}
+					}
+				case *ssa.Store:
+					if !tainted[x.Val] {
+						continue
+					}
+					ra := rootAlloc(x.Addr)
+					if ra != nil && ra != al && sameCycle(ra.Block(), in) {
+						if _, isStruct := ra.Type().Underlying().(*types.Pointer).Elem().Underlying().(*types.Struct); isStruct && !cells[ra] {
+							cells[ra], changed = true, true
+						}
+						continue
+					}
+					if ra != nil && ra != al {
+						// a variable declared before the loop
+						if _, isStruct := ra.Type().Underlying().(*types.Pointer).Elem().Underlying().(*types.Struct); isStruct || x.Addr == ssa.Value(ra) {
+							return x
+						}
+						continue
+					}
+					if ra == nil {
+						return x
+					}
+				case *ssa.MapUpdate:
+					if tainted[x.Value] || tainted[x.Key] {
+						return x
+					}
+				case *ssa.Send:
+					if tainted[x.X] {
+						return x
+					}
+				}
+			}
+		}
+	}
+	return nil
 }
 
 // ---------------------------------------------------------------- R-FEED-START
@@ -1104,6 +1243,31 @@ func (m *Model) ruleOPTSCARRY(r *Results) {
 	if n < 5 {
 		r.undecided(rule, "instance-floor", "-", "only %d forwarded options arguments found", n)
 	}
+	// Nobody but the caller asks for the stored expiry to be kept: the package never sets a
+	// preserve-expiry option on its own (it only copies the caller's).
+	bad := ""
+	for _, fn := range m.Funcs {
+		for _, b := range fn.Blocks {
+			for _, ins := range b.Instrs {
+				st, ok := ins.(*ssa.Store)
+				if !ok {
+					continue
+				}
+				fa, ok := st.Addr.(*ssa.FieldAddr)
+				if !ok || fieldOf(fa) == nil || fieldOf(fa).Name() != "PreserveExpiry" {
+					continue
+				}
+				if c, ok := st.Val.(*ssa.Const); ok && c.Value != nil && !constant.BoolVal(c.Value) {
+					continue
+				}
+				if _, g, ok := fieldLoad(stripConv(st.Val)); ok && g.Name() == "PreserveExpiry" {
+					continue
+				}
+				bad = m.instrPos(st)
+			}
+		}
+	}
+	r.check(bad == "", rule, "preserve-expiry is only ever the caller's choice", "-", "no options struct gets PreserveExpiry from anything but another options struct's PreserveExpiry", "an options struct is given PreserveExpiry by the package itself at "+bad+": the write then keeps the stored expiry although the caller passed one to be set")
 }
 
 // derivesFromParamField: v is computed from field `field` of *P (possibly through calls such as append).
@@ -2698,6 +2862,37 @@ func (m *Model) ruleVIEWSTALE(r *Results) {
 					problems = append(problems, "for stale = "+a.name+" the index is updated synchronously although a stale result was asked for")
 				}
 			}
+			// whether the index is out of date is decided from what the database says (the view's
+			// mark and the collection's, both read from their rows), not from a copy some handle keeps
+			for _, iff := range allIfs(fn) {
+				s0, s1 := iff.Block().Succs[0], iff.Block().Succs[1]
+				r0 := s0 == c.Block() || reachableFrom(s0, nil)[c.Block().Index]
+				r1 := s1 == c.Block() || reachableFrom(s1, nil)[c.Block().Index]
+				if r0 == r1 {
+					continue
+				}
+				bo, ok := stripConv(iff.Cond).(*ssa.BinOp)
+				if !ok || (bo.Op != token.EQL && bo.Op != token.NEQ) {
+					continue
+				}
+				isInt := func(v ssa.Value) bool {
+					b, ok := v.Type().Underlying().(*types.Basic)
+					return ok && b.Info()&types.IsInteger != 0
+				}
+				if _, isK := bo.X.(*ssa.Const); isK || !isInt(bo.X) {
+					continue
+				}
+				if _, isK := bo.Y.(*ssa.Const); isK {
+					continue
+				}
+				why := ""
+				for _, op := range []ssa.Value{bo.X, bo.Y} {
+					if w := m.notARowRead(op, 0); w != "" {
+						why = w
+					}
+				}
+				r.check(why == "", rule, m.declName(fn)+" / whether the index is out of date is decided from the database", m.instrPos(iff), "both marks compared before the update are read from rows", "the comparison that lets the query skip the index update uses a value that is not read from the database ("+why+"): a write made through another handle (or below that copy) is not seen, and the query is served from an index that misses it")
+			}
 			r.check(len(problems) == 0, rule, m.declName(fn)+" / index updated unless a stale result was asked for", m.instrPos(c), "the synchronous index update is skipped exactly for stale = true, \"ok\" and \"updateAfter\"", strings.Join(problems, "; ")+": a query that did not ask for a stale result is served from an index that misses recent writes")
 		})
 	}
@@ -2774,4 +2969,101 @@ func (m *Model) deletesFilesVia(call ssa.CallInstruction, env map[*ssa.Parameter
 	}
 	visit(f)
 	return found
+}
+
+// lockOpBetween: a lock acquisition or release that can execute after `from` and before `to`
+// (both in the same function).
+func (m *Model) lockOpBetween(from, to ssa.Instruction) ssa.Instruction {
+	fb, tb := from.Block(), to.Block()
+	fromReach := reachableFrom(fb, nil)
+	var found ssa.Instruction
+	for _, b := range fb.Parent().Blocks {
+		for i, ins := range b.Instrs {
+			c, ok := ins.(ssa.CallInstruction)
+			if !ok {
+				continue
+			}
+			op, ok := m.lockOpOf(c)
+			if !ok || op.Deferred {
+				continue
+			}
+			switch {
+			case b == fb && b == tb && !inCycle(b):
+				if i > indexIn(b, from) && i < indexIn(b, to) {
+					found = ins
+				}
+			case b == fb:
+				if i > indexIn(b, from) && reachableFromSuccs(b, newCut())[tb.Index] {
+					found = ins
+				}
+			case b == tb:
+				if i < indexIn(b, to) && fromReach[b.Index] {
+					found = ins
+				}
+			default:
+				if fromReach[b.Index] && reachableFrom(b, nil)[tb.Index] {
+					found = ins
+				}
+			}
+		}
+	}
+	return found
+}
+
+// notARowRead explains why v is not known to be a value read from a row: v must be the result
+// of a package function all of whose successful returns give back a scan destination, a field
+// that some scan fills, or a local variable a scan fills. "" when it is.
+func (m *Model) notARowRead(v ssa.Value, depth int) string {
+	v = stripConv(v)
+	if depth > 3 {
+		return "too deep to follow at " + m.pos(v.Pos())
+	}
+	isDest := func(cell ssa.Value) bool {
+		for _, sc := range m.scanCalls() {
+			for _, d := range sc.Dests {
+				d = stripConv(d)
+				if d == cell {
+					return true
+				}
+				fa, ok1 := d.(*ssa.FieldAddr)
+				fc, ok2 := cell.(*ssa.FieldAddr)
+				if ok1 && ok2 && fieldOf(fa) == fieldOf(fc) {
+					return true
+				}
+			}
+		}
+		return false
+	}
+	switch x := v.(type) {
+	case *ssa.UnOp:
+		if x.Op == token.MUL && isDest(stripConv(x.X)) {
+			return ""
+		}
+	case *ssa.Extract:
+		call, ok := x.Tuple.(*ssa.Call)
+		if !ok {
+			break
+		}
+		f := call.Common().StaticCallee()
+		if f == nil || !m.inPkg(f) || len(f.Blocks) == 0 {
+			break
+		}
+		for _, ret := range returnsOf(f) {
+			if m.mustBeFailureReturn(ret) || x.Index >= len(ret.Results) {
+				continue
+			}
+			if w := m.notARowRead(ret.Results[x.Index], depth+1); w != "" {
+				return w
+			}
+		}
+		return ""
+	case *ssa.Phi:
+		for _, e := range x.Edges {
+			if w := m.notARowRead(e, depth+1); w != "" {
+				return w
+			}
+		}
+		return ""
+	}
+	return "the value at " + m.pos(v.Pos())
 }
